@@ -16,11 +16,13 @@ META = {
         "(C04) so the text is these bytes with header nibbles swapped, per-bucket quartile lookup indexes byte "
         "len-1-i/4 shifted by 2*(i%4) (first bucket in the low bits of the last byte), and clear_checksum zeroes the "
         "whole checksum array and nothing else."
+        "  The serializers and parsers themselves are decided by abstract evaluation (wmodel / rmodel, DESIGN 9.5) with the idiom-based window rules as fallback."
     ),
     "trusted_base": ["rustc nightly front end and constant evaluator", "bitfield-struct generated accessors (constants checked)"],
     "assumptions": [],
     "not_decided": [],
 }
+TECHNIQUE = 'abstract evaluation of the binary/text serializers and parsers (field windows per variant), exhaustive evaluation of the quartile accessor and bit-field layout, whole-array rules'
 
 
 def ref_bin_layout(env):
